@@ -183,42 +183,39 @@ Qed.
 
 (** the end part of trimResultsToRange *)
 Definition etrim (e : option (Z * Z)) (d : list vrec) : list vrec :=
-  if (length d <=? 1)%nat then d
-  else match e with
-       | None => d
-       | Some e' => match cut_end e' d with Some p => p | None => d end
-       end.
+  match e with
+  | None => d
+  | Some e' => match cut_end e' d with Some p => p | None => [] end
+  end.
 
 Lemma trim_range_etrim s e l : trim_range s e l = etrim e (drop_before s l).
 Proof. reflexivity. Qed.
+
+(** on time-ordered records the end trim is a take-while *)
+Lemma etrim_sorted e d : time_sorted d = true ->
+  etrim (Some e) d = take_le e d.
+Proof.
+  intros Hs. unfold etrim. rewrite (cut_end_sorted e d Hs).
+  destruct d as [|r rest]; [reflexivity|]. cbn [take_le]. destruct (tle (vtime r) e); reflexivity.
+Qed.
+
+Lemma time_sorted_app_l p q : time_sorted (p ++ q) = true -> time_sorted p = true.
+Proof.
+  induction p as [|r p IH]; intros H; [reflexivity|].
+  destruct p as [|r' p'].
+  - reflexivity.
+  - cbn in H |- *. apply andb_prop in H as [H1 H2]. rewrite H1. cbn. apply IH. exact H2.
+Qed.
 
 Lemma etrim_prefix e n p q :
   time_sorted (p ++ q) = true -> (n <= length p)%nat -> (1 <= n)%nat ->
   firstn n (etrim e p) = firstn n (etrim e (p ++ q)).
 Proof.
   intros Hs Hlen Hn. destruct e as [e|].
-  2:{ unfold etrim. destruct (length p <=? 1)%nat, (length (p ++ q) <=? 1)%nat;
-        symmetry; apply firstn_app_le; assumption. }
-  destruct p as [|h p']; [cbn in Hlen; lia|].
-  assert (Hsp : time_sorted (h :: p') = true).
-  { clear - Hs. revert h Hs. induction p' as [|r p IH]; intros h Hs; [reflexivity|].
-    cbn in Hs |- *. apply andb_prop in Hs as [H1 H2]. rewrite H1. cbn. apply IH. exact H2. }
-  unfold etrim.
-  change ((h :: p') ++ q) with (h :: (p' ++ q)) in *.
-  rewrite (cut_end_sorted_cons e h (p' ++ q) Hs), (cut_end_sorted_cons e h p' Hsp).
-  destruct (tle (vtime h) e) eqn:Eh.
-  - (* head within the end bound: both are takeWhile unless a single record *)
-    destruct (Nat.leb_spec (length (h :: (p' ++ q))) 1) as [L1|L1].
-    + destruct p'; [|cbn in L1; lia]. destruct q; [|cbn in L1; lia]. reflexivity.
-    + destruct (Nat.leb_spec (length (h :: p')) 1) as [L2|L2].
-      * destruct p'; [|cbn in L2; lia]. assert (n = 1)%nat by (cbn in Hlen; lia). subst n.
-        cbn. rewrite Eh. reflexivity.
-      * change (h :: (p' ++ q)) with ((h :: p') ++ q). rewrite take_le_app.
-        destruct (forallb (fun r => tle (vtime r) e) (h :: p')) eqn:Ef; [|reflexivity].
-        rewrite (take_le_all e _ Ef). symmetry. apply firstn_app_le. assumption.
-  - change (h :: (p' ++ q)) with ((h :: p') ++ q).
-    destruct (length (h :: p') <=? 1)%nat, (length ((h :: p') ++ q) <=? 1)%nat;
-      symmetry; apply firstn_app_le; assumption.
+  2:{ cbn. symmetry. apply firstn_app_le. assumption. }
+  rewrite (etrim_sorted e _ Hs), (etrim_sorted e _ (time_sorted_app_l _ _ Hs)).
+  rewrite take_le_app. destruct (forallb (fun r => tle (vtime r) e) p) eqn:Ef; [|reflexivity].
+  rewrite (take_le_all e _ Ef). symmetry. apply firstn_app_le. assumption.
 Qed.
 
 Lemma cut_end_all_le e : forall l, l <> [] -> forallb (fun r => tle (vtime r) e) l = true -> cut_end e l = Some l.
@@ -232,8 +229,7 @@ Qed.
 
 Lemma etrim_all_le e l : all_le e l = true -> etrim e l = l.
 Proof.
-  intros H. unfold etrim. destruct (length l <=? 1)%nat; [reflexivity|].
-  destruct e as [e|]; [|reflexivity]. cbn in H.
+  intros H. unfold etrim. destruct e as [e|]; [|reflexivity]. cbn in H.
   destruct l as [|r l]; [reflexivity|]. rewrite cut_end_all_le by (congruence || assumption). reflexivity.
 Qed.
 
